@@ -38,6 +38,8 @@ type Engine struct {
 	loopBase    map[string][]loopRec
 	panics      map[*ssa.Function]bool
 	tables      map[*ssa.Global][]*ssa.Const
+	scalars     map[*ssa.Global]*ssa.Const
+	scalarSeen  map[*ssa.Global]bool
 	renamedBare map[string]string // functions under contract that were renamed: old bare name -> new bare name
 	renamedNew  map[string]string // new funcName -> old funcName (for baseline lookups)
 	renamedKey  map[string]string // the same by funcName: "saml.old" -> "saml.new", "(*saml.T).old" -> "saml.new"
